@@ -120,6 +120,12 @@ Definition run_cache (args : list bytes) : option bytes :=
         | Some h, Some p => Some (xhex (join_host_port h p))
         | _, _ => None
         end
+      else if beq op (bs "resolve") then
+        (* resolve <base escaped path> <relative reference> -> the path of base.ResolveReference(&url.URL{Path: ref}) *)
+        match payload_parse a, payload_parse b with
+        | Some base, Some ref => Some (xhex (resolve_path base ref))
+        | _, _ => None
+        end
       else None
   | [op; _; _; ct; pf; cf; ou; pre; oa; sha] =>
       let h34 := if beq op (bs "cacheurl") then Some h34_runes
